@@ -87,13 +87,12 @@ def signature(func, variadic=True, markup=True, safe=False):
             func = func.func
             identified = True
         except AttributeError:
-            if hasattr(func, '__call__') and not hasattr(func, '__name__'):
-                func = func.__call__ # treat callable instance as __call__
-            else: #XXX: anything else to try? No? Give up.
-                pass
+            pass
     if not identified:
         p_args = ()
         p_kwds = {}
+    # treat callable instance (also inside a partial) as its __call__
+    if _iscallableinstance(func): func = func.__call__
 
     FULL_ARGS = hasattr(inspect, 'getfullargspec')
     try:
@@ -160,6 +159,11 @@ def signature(func, variadic=True, markup=True, safe=False):
     return explicit, defaults
 
 
+def _iscallableinstance(obj):
+    "True if obj is an instance of a python class that defines __call__"
+    return hasattr(obj, '__call__') and not inspect.isroutine(obj) \
+       and not inspect.isclass(obj) and inspect.ismethod(obj.__call__)
+
 import sys
 def isvalid(func, /, *args, **kwds):
     """check if func(*args,**kwds) is a valid call for function 'func'
@@ -201,14 +205,13 @@ def validate(func, /, *args, **kwds):
             p_required = set(p_named) - set(p_defaults)
             identified = True
         except AttributeError:
-            if hasattr(func, '__call__') and not hasattr(func, '__name__'):
-                func = func.__call__ # treat callable instance as __call__
-            else: #XXX: anything else to try? No? Give up.
-                pass
+            pass
     if not identified:
         p_args = p_named = ()
         p_kwds = p_defaults = {}
         p_required = set()
+    # treat callable instance (also inside a partial) as its __call__
+    if _iscallableinstance(func): func = func.__call__
 
     # get keyword-only parameters: they can only be given by name, never positionally
     try:
@@ -239,6 +242,13 @@ def validate(func, /, *args, **kwds):
     if var_args and not hasargs:
         var_kwds = set(kwds) - set(named) - kwonly
         raise TypeError("%s() takes at most %d arguments (%d given)" % (func.__name__, len(named)+len(p_args), len(p_args)+len(args)+len(kwds)))
+
+    # FAIL if the instance of a bound method is given again, by name
+    if inspect.ismethod(func) and func.__self__ is not None:
+        _code = getattr(func.__func__, '__code__', None)
+        if _code is not None and _code.co_argcount and not _code.co_posonlyargcount \
+           and _code.co_varnames[0] in kwds:
+            raise TypeError("%s() got multiple values for argument '%s'" % (func.__name__, _code.co_varnames[0]))
 
     # check any varkwds; FAIL if func doesn't take varkwds
     var_kwds = set(kwds) - set(named) - kwonly
